@@ -123,7 +123,11 @@ func c13Scenarios(thorough bool) []c13Scenario {
 					if nsel > 1 {
 						continue
 					}
-					if !thorough && nops > 4 {
+					maxOps := 5
+					if n := envInt("VERIF_C13_NOPS"); n > 0 {
+						maxOps = n
+					}
+					if !thorough && nops > maxOps {
 						continue
 					}
 					out = append(out, c13Scenario{fmt.Sprintf("%s|%s|%s/cap%d", bs[i].name, bs[j].name, bs[k].name, cap1), cap1, []c13Body{bs[i], bs[j], bs[k]}})
@@ -283,9 +287,12 @@ func c13Check(sc c13Scenario, ex *sched.Execution, traces map[string][]string) s
 }
 
 func runC13(r *harness.Run) {
-	bound := 2
+	bound := 3
 	if r.Thorough() {
-		bound = 3
+		bound = 4
+	}
+	if b := envInt("VERIF_C13_BOUND"); b > 0 {
+		bound = b
 	}
 	scs := c13Scenarios(r.Thorough())
 	r.Rule = fmt.Sprintf("%d channel scenarios (all pairs and triples of 17 thread bodies: producers sending 1-2 values, consumers receiving 1-3 times, closers, selects with recv/recv, recv/send, recv/default, send/default cases with and without handlers, over channel capacities 0/1/2) and interference scenarios (states running one shared compiled prototype while another state is created, compiles the same source and is closed; scheduling point at every VM instruction); "+
@@ -530,11 +537,23 @@ func c13Interference(r *harness.Run, bound int, states, transitions, execs *int6
 			return err
 		}},
 	}
+	// each variant gets a third of the part's time budget
+	ibudget := 4 * time.Minute
+	if !r.Thorough() {
+		ibudget = 25 * time.Second
+	}
 	for _, v := range variants {
 		v := v
-		e := &sched.Explorer{Bound: bound, Cap: 30000}
+		istart := time.Now()
+		// quick: every schedule with at most two pre-emptions (complete); thorough: three, as far as
+		// the time budget reaches (reported as not exhaustive when cut)
+		e := &sched.Explorer{Bound: 3, Cap: 4000000}
 		if !r.Thorough() {
-			e.Bound = 1
+			e.Bound = 2
+		}
+		cut := int32(0)
+		if b := envInt("VERIF_C13_IBOUND"); b > 0 {
+			e.Bound = b
 		}
 		run := func(prefix []int) *sched.Execution {
 			ctrl := sched.NewController()
@@ -571,7 +590,7 @@ func c13Interference(r *harness.Run, bound int, states, transitions, execs *int6
 			}
 			return ex
 		}
-		e.Explore(run, func(choices []int, ex *sched.Execution) bool {
+		e.ExploreParallel(harness.Workers(), run, func(choices []int, ex *sched.Execution) bool {
 			atomic.AddInt64(execs, 1)
 			atomic.AddInt64(states, int64(len(ex.Points)))
 			atomic.AddInt64(transitions, int64(len(ex.Points)))
@@ -580,8 +599,15 @@ func c13Interference(r *harness.Run, bound int, states, transitions, execs *int6
 				r.Violation("interference/"+v.name, strings.Join(ex.Errors, "; ")+fmt.Sprintf("\nschedule %v", choices), map[string]interface{}{"variant": v.name, "schedule": choices})
 				return false
 			}
-			return !r.Expired()
+			if r.Expired() || time.Since(istart) > ibudget {
+				atomic.StoreInt32(&cut, 1)
+				return false
+			}
+			return true
 		})
+		if cut != 0 {
+			r.NotExhaustive(fmt.Sprintf("time budget reached in interference/%s after %d schedules (bound %d; bound %d is complete in the quick tier)", v.name, e.Executions, e.Bound, 2))
+		}
 		r.Eval("interference/"+v.name, true, func() interface{} {
 			return map[string]interface{}{"scenario": "interference/" + v.name, "schedules": e.Executions, "max_decision_points": e.MaxPoints, "bound": e.Bound}
 		})
